@@ -90,14 +90,14 @@ fn value_bytes(kind: u64, el: u64, m: usize, vs: u64) -> Vec<u8> {
 
 // ---- byte producers (reader / writer kinds): everything comes from the resource string
 #[derive(Clone)]
-struct ByteSpec { data: Vec<u8>, sizes: Vec<usize>, fail: Option<usize>, slp: u64 }
-/// "b:<datahex>:<sizes . separated|->:<fail|->:<slp>"
+struct ByteSpec { data: Vec<u8>, sizes: Vec<usize>, fail: Option<usize>, slp: u64, panic: bool }
+/// "b:<datahex>:<sizes . separated|->:<fail|->:<slp>:<err|panic>"
 fn parse_bytespec(res: &str) -> Option<ByteSpec> {
     let t: Vec<&str> = res.split(':').collect();
-    if t.len() != 5 || t[0] != "b" { return None; }
+    if t.len() != 6 || t[0] != "b" { return None; }
     let sizes = if t[2] == "-" { vec![] } else { t[2].split('.').map(|s| ph(s).map(|v| v as usize)).collect::<Option<Vec<_>>>()? };
     let fail = if t[3] == "-" { None } else { Some(ph(t[3])? as usize) };
-    Some(ByteSpec { data: unhex(t[1]), sizes, fail, slp: ph(t[4])? })
+    Some(ByteSpec { data: unhex(t[1]), sizes, fail, slp: ph(t[4])?, panic: t[5] == "panic" })
 }
 /// the same cut as the model's `segment`: each size takes what is left, the rest is one final piece
 fn segments(spec: &ByteSpec) -> Vec<Vec<u8>> {
@@ -109,13 +109,15 @@ fn segments(spec: &ByteSpec) -> Vec<Vec<u8>> {
 }
 fn nap(r: &mut Rng, slp: u64) { if slp != 0 { let us = r.below(3000); if us > 300 { std::thread::sleep(Duration::from_micros(us)); } } }
 
-struct SegReader { segs: std::collections::VecDeque<Vec<u8>>, off: usize, fail: bool, rng: Rng, slp: u64 }
+struct SegReader { segs: std::collections::VecDeque<Vec<u8>>, off: usize, fail: bool, panic: bool, rng: Rng, slp: u64 }
 impl Read for SegReader {
     fn read(&mut self, out: &mut [u8]) -> io::Result<usize> {
         if out.is_empty() { return Ok(0); }
         nap(&mut self.rng, self.slp);
         loop {
             match self.segs.front() {
+                // application code on the producer thread may also panic instead of returning an error
+                None if self.fail && self.panic => panic!("seeded producer panic (reader)"),
                 None => return if self.fail { Err(io::Error::other("injected reader failure")) } else { Ok(0) },
                 Some(s) if self.off >= s.len() => { self.segs.pop_front(); self.off = 0; }
                 Some(s) => {
@@ -142,12 +144,13 @@ fn build_router(kind: u64, el: u64, n: u64, d: u64, z: bool) -> Router {
         (1, 0) => Router::new().with_typed_value_stream(|r: &str| parse_v(r).map(|(m, vs)| mk_bytes(m, vs)), o),
         (1, _) => Router::new().with_typed_value_stream(|r: &str| parse_v(r).map(|(m, vs)| mk_f64(m, vs)), o),
         (2, _) => Router::new().with_complex_value_stream(|r: &str| parse_v(r).map(|(m, vs)| mk_cplx(m, vs)), o),
-        (3, _) => Router::new().with_reader_stream(|r: &str| parse_bytespec(r).map(|s| SegReader { segs: segments(&s).into_iter().filter(|x| !x.is_empty()).collect(), off: 0, fail: s.fail.is_some(), rng: Rng::new(s.slp), slp: s.slp }), o),
+        (3, _) => Router::new().with_reader_stream(|r: &str| parse_bytespec(r).map(|s| SegReader { segs: segments(&s).into_iter().filter(|x| !x.is_empty()).collect(), off: 0, fail: s.fail.is_some(), panic: s.panic, rng: Rng::new(s.slp), slp: s.slp }), o),
         _ => Router::new().with_writer_stream(BodyFormat::RawBinary, |r: &str| parse_bytespec(r).map(|s| -> WriterFn {
             Box::new(move |w: &mut dyn Write| {
                 let mut rng = Rng::new(s.slp ^ 0x77);
                 // flush after every write: a flush must never cut a short chunk
                 for seg in segments(&s) { nap(&mut rng, s.slp); w.write_all(&seg)?; w.flush()?; }
+                if s.fail.is_some() && s.panic { panic!("seeded producer panic (writer)"); }
                 if s.fail.is_some() { Err(io::Error::other("injected writer failure")) } else { Ok(()) }
             })
         }), o),
@@ -177,10 +180,10 @@ fn servers(k: Key) -> Result<Arc<Servers>, String> {
 struct Live { key: Key, sv: Arc<Servers>, raw_tcp: Option<RawPeer>, raw_ws: Option<RawPeer>, client: Option<Arc<Client>>, aclient: Option<Arc<AsyncClient>> }
 static LIVE: Mutex<Option<Live>> = Mutex::new(None);
 
-struct Case { kind: u64, el: u64, pull: u64, n: u64, d: u64, z: bool, data: Vec<u8>, w: String, f: String, cj: u64, slp: u64, vm: u64, vs: u64 }
+struct Case { kind: u64, el: u64, pull: u64, n: u64, d: u64, z: bool, data: Vec<u8>, w: String, f: String, fk: String, cj: u64, slp: u64, vm: u64, vs: u64 }
 
 fn resource(c: &Case) -> String {
-    if c.kind <= 2 { format!("v:{}:{}", hx(c.vm), hx(c.vs)) } else { format!("b:{}:{}:{}:{}", hex(&c.data), c.w, c.f, hx(c.slp)) }
+    if c.kind <= 2 { format!("v:{}:{}", hx(c.vm), hx(c.vs)) } else { format!("b:{}:{}:{}:{}:{}", hex(&c.data), c.w, c.f, hx(c.slp), c.fk) }
 }
 
 fn rs(r: &Resp) -> Result<String, String> {
@@ -371,10 +374,10 @@ fn run_case(line: &str) -> String {
     let f = fields(line);
     let parsed = (|| -> Option<Case> {
         let g = |k: &str| ph(f.get(k)?);
-        Some(Case { kind: g("kind")?, el: g("el")?, pull: g("pull")?, n: g("n")?, d: g("d")?, z: g("z")? != 0, data: unhex(f.get("data")?), w: f.get("w")?.clone(), f: f.get("f")?.clone(), cj: g("cj")?, slp: g("slp")?, vm: g("vm")?, vs: g("vs")? })
+        Some(Case { kind: g("kind")?, el: g("el")?, pull: g("pull")?, n: g("n")?, d: g("d")?, z: g("z")? != 0, data: unhex(f.get("data")?), w: f.get("w")?.clone(), f: f.get("f")?.clone(), fk: f.get("fk").cloned().unwrap_or_else(|| "err".into()), cj: g("cj")?, slp: g("slp")?, vm: g("vm")?, vs: g("vs")? })
     })();
     let Some(c) = parsed else { return "crash=badcase:parse".into() };
-    if c.n == 0 || c.kind > 4 || c.pull > 2 { return "crash=badcase:range".into(); }
+    if c.n == 0 || c.kind > 4 || c.pull > 2 || (c.fk != "err" && c.fk != "panic") { return "crash=badcase:range".into(); }
     static HOOK: std::sync::Once = std::sync::Once::new();
     static LAST: Mutex<String> = Mutex::new(String::new());
     HOOK.call_once(|| std::panic::set_hook(Box::new(|i| { *LAST.lock().unwrap_or_else(|e| e.into_inner()) = i.to_string(); })));
@@ -385,15 +388,15 @@ fn run_case(line: &str) -> String {
 struct Gen { out: Vec<(Key, String)>, k: u64, cross: bool }
 impl Gen {
     #[allow(clippy::too_many_arguments)]
-    fn push(&mut self, kind: u64, el: u64, n: u64, d: u64, z: bool, data: &[u8], w: &[u64], f: Option<u64>, slp: u64, vm: u64, vs: u64) {
+    fn push(&mut self, kind: u64, el: u64, n: u64, d: u64, z: bool, data: &[u8], w: &[u64], f: Option<(u64, bool)>, slp: u64, vm: u64, vs: u64) {
         self.k += 1;
         // the puller rotates; the thorough tier runs the small cases over all three
         let pulls: Vec<u64> = if self.cross && data.len() <= 600 { vec![0, 1, 2] } else { vec![self.k % 3] };
         let cj = [0u64, 1, 2, 3, 1, 5][(self.k / 3 % 6) as usize];
         let ws = if w.is_empty() { "-".to_string() } else { w.iter().map(|x| hx(*x)).collect::<Vec<_>>().join(".") };
         for pull in pulls {
-            self.out.push(((kind, el, n, d, z), format!("kind={} el={} pull={} n={} d={} z={} data={} w={} f={} cj={} slp={} vm={} vs={}",
-                kind, el, pull, hx(n), hx(d), z as u8, hex(data), ws, f.map(hx).unwrap_or_else(|| "-".into()), hx(cj), hx(slp), hx(vm), hx(vs))));
+            self.out.push(((kind, el, n, d, z), format!("kind={} el={} pull={} n={} d={} z={} data={} w={} f={} fk={} cj={} slp={} vm={} vs={}",
+                kind, el, pull, hx(n), hx(d), z as u8, hex(data), ws, f.map(|(k, _)| hx(k)).unwrap_or_else(|| "-".into()), if matches!(f, Some((_, true))) { "panic" } else { "err" }, hx(cj), hx(slp), hx(vm), hx(vs))));
         }
     }
 }
@@ -455,10 +458,10 @@ fn gen_cases(seed: u64, thorough: bool) -> Vec<String> {
         let data = rng.bytes(l as usize);
         let nw = rng.range(0, 12);
         let w: Vec<u64> = (0..nw).map(|_| match rng.below(5) { 0 => 0, 1 => n, 2 => rng.range(0, 3 * n + 2), _ => rng.range(0, l / 2 + 2) }).collect();
-        let f = if rng.chance(1, 4) { Some(rng.range(0, l)) } else { None };
+        let f = if rng.chance(1, 4) { Some((rng.range(0, l), rng.chance(1, 2))) } else { None };
         g.push(rng.range(3, 4), 0, n, rng.below(maxd + 1), rng.chance(1, 3), &data, &w, f, 0, 0, 0);
     }
-    // 4. failure points at every chunk boundary +-1
+    // 4. failure points at every chunk boundary +-1, as a returned error and as a panic of the body writer
     for n in [1u64, 2, 3, 8, 64] {
         for l in [n + 1, 2 * n, 3 * n + 1] {
             let data = rng.bytes(l as usize);
@@ -468,8 +471,10 @@ fn gen_cases(seed: u64, thorough: bool) -> Vec<String> {
             for k in ks { for z in [false, true] { for kind in [3u64, 4] {
                 let d = if thorough { rng.below(maxd + 1) } else { g.k % (maxd + 1) };
                 let w: Vec<u64> = if g.k % 4 == 0 { vec![rng.range(0, n + 1), rng.range(0, n + 1)] } else { vec![] };
-                g.push(kind, 0, n, d, z, &data, &w, Some(k), 0, 0, 0);
-                if thorough { for d2 in [0, maxd] { g.push(kind, 0, n, d2, z, &data, &w, Some(k), 0, 0, 0); } }
+                for panic in [false, true] {
+                    g.push(kind, 0, n, d, z, &data, &w, Some((k, panic)), 0, 0, 0);
+                    if thorough { for d2 in [0, maxd] { g.push(kind, 0, n, d2, z, &data, &w, Some((k, panic)), 0, 0, 0); } }
+                }
             } } }
         }
     }
@@ -479,7 +484,7 @@ fn gen_cases(seed: u64, thorough: bool) -> Vec<String> {
         let l = rng.range(0, 5 * n + 1);
         let data = rng.bytes(l as usize);
         let w: Vec<u64> = (0..rng.range(0, 6)).map(|_| rng.range(0, n + 1)).collect();
-        let f = if i % 5 == 4 { Some(rng.range(0, l)) } else { None };
+        let f = if i % 5 == 4 { Some((rng.range(0, l), i % 10 == 9)) } else { None };
         g.push(rng.range(3, 4), 0, n, rng.below(maxd + 1), rng.chance(1, 3), &data, &w, f, rng.range(1, 1 << 30), 0, 0);
     }
     // 6. the BEVE producers: element counts whose serialization lands on and around
